@@ -1,0 +1,31 @@
+/*
+Copyright (c) Meta Platforms, Inc. and affiliates.
+Licensed under the Apache License, Version 2.0 (the "License");
+you may not use this file except in compliance with the License.
+You may obtain a copy of the License at
+    http://www.apache.org/licenses/LICENSE-2.0
+Unless required by applicable law or agreed to in writing, software
+distributed under the License is distributed on an "AS IS" BASIS,
+WITHOUT WARRANTIES OR CONDITIONS OF ANY KIND, either express or implied.
+See the License for the specific language governing permissions and
+limitations under the License.
+*/
+
+// Package verifhook provides scheduling hooks for deterministic-simulation
+// testing. Without the build tag "verif" every function in this package is an
+// empty, inlinable no-op and the shipped behaviour is unchanged. With the tag
+// an external simulator may attach a Handler that decides, at each hook, which
+// goroutine proceeds next.
+package verifhook
+
+// TryLocker is satisfied by *sync.Mutex and *sync.RWMutex.
+type TryLocker interface {
+	TryLock() bool
+	Unlock()
+}
+
+// TryRLocker is satisfied by *sync.RWMutex.
+type TryRLocker interface {
+	TryRLock() bool
+	RUnlock()
+}
